@@ -209,17 +209,16 @@ const (
 )
 
 type c03Pod struct {
-	Name      string
-	Quota     string // the quota the pod belongs to by construction
-	How       string // how the association is expressed
-	Req       c03Res // full request, undeclared dimensions included
-	ZeroKeys  []corev1.ResourceName
-	NonPre    bool
-	State     int
-	Obj       *corev1.Pod
-	RV        int
-	Rejected  bool // a rejection happened and no admission since
-	RelAfterR bool // an assigned pod was released (delete / unreserve) after that rejection
+	Name     string
+	Quota    string // the quota the pod belongs to by construction
+	How      string // how the association is expressed
+	Req      c03Res // full request, undeclared dimensions included
+	ZeroKeys []corev1.ResourceName
+	NonPre   bool
+	State    int
+	Obj      *corev1.Pod
+	RV       int
+	Rejected bool // a rejection happened and no admission since
 }
 
 type c03Node struct {
@@ -913,10 +912,13 @@ type c03Verdict struct {
 	missingLimitDim             bool
 }
 
-// limit of quota x in dimension d as the plugin publishes it: the runtime list when runtime quota is on (a dimension
-// absent from that list is not limited by the plugin — counted, see DESIGN "R"), the quota's max otherwise
+// limit of quota x in dimension d: the quota's max when runtime quota is off; when it is on, the runtime list the
+// plugin publishes after a refresh (a dimension absent from that list is not limited by the plugin — counted, see
+// DESIGN "R"). The built-in default and system quota take no part in the runtime calculation: the manager defines their
+// runtime as their max (RefreshRuntime answers GetMax() for them and never fills a runtime list), so max is their limit
+// under both settings.
 func (h *c03Case) limit(x *c03Quota, d corev1.ResourceName, sums map[string]*core.QuotaInfoSummary) (int64, bool) {
-	if !h.rtOn {
+	if !h.rtOn || x.Special {
 		return x.Max[d], true
 	}
 	s := sums[x.Name]
@@ -1013,13 +1015,7 @@ func (h *c03Case) schedule(t *rapid.T, pd *c03Pod, midCycle func()) {
 		h.c.Class("verdict-differs-before/after-PreFilter's-own-refresh(either accepted)")
 	}
 	h.c.ClassIf(vb.runtimeBelowMax, "attempt-with-runtime<max")
-	if vb.missingLimitDim {
-		if own.Special {
-			h.c.Class("default/system-quota-has-no-runtime-list(not limited by plugin; see invariant)")
-		} else {
-			h.c.Class("declared-dimension-missing-from-runtime-of-regular-quota(not limited by plugin; not asserted)")
-		}
-	}
+	h.c.ClassIf(vb.missingLimitDim, "declared-dimension-missing-from-runtime-list(not limited by plugin; not asserted)")
 	code := status.Code()
 	switch code {
 	case fwktype.Success:
@@ -1029,6 +1025,9 @@ func (h *c03Case) schedule(t *rapid.T, pd *c03Pod, midCycle func()) {
 		switch {
 		case !vb.own && !va.own:
 			sig = "admit:own-quota-over-limit"
+			if own.Special && h.rtOn {
+				sig = "admit:own-quota-over-limit:default-or-system-quota-with-runtime-quota-on"
+			}
 		case !vb.np && !va.np:
 			sig = "admit:non-preemptible-over-min"
 		case !vb.ancNarrow && !va.ancNarrow:
